@@ -183,7 +183,9 @@ func checkC14(p *Prog, r *Result, tier string) {
 	// RC: recovery invoked at start-up
 	r.min("RC", 2)
 	if fn := p.Fn("cluster/calcium.(*Calcium).DisasterRecover"); fn != nil {
-		n := len(fn.calls(func(f *types.Func) bool { return strings.HasSuffix(objName(f), ".Recover") && strings.HasPrefix(objName(f), "wal.") }))
+		n := len(fn.calls(func(f *types.Func) bool {
+			return strings.HasSuffix(objName(f), ".Recover") && strings.HasPrefix(objName(f), "wal.")
+		}))
 		r.check(n == 1, "RC", fn.Name+" replays the log", p.pos(fn.Decl), "calls wal.Recover", "DisasterRecover does not call wal.Recover")
 	} else {
 		r.undecided("RC", "DisasterRecover", "", "not found")
